@@ -150,7 +150,14 @@ AddOptValid(n) ==
 AddOptRefused(n) ==
     CASE n \in {"chunker", "hash"} -> {}      \* free strings, decided inside the adder (C13)
       [] OTHER -> {"garbage"}
-AddOptClasses(n) == AddOptValid(n) \cup AddOptRefused(n)
+\* values that decode as a parameter but are rejected while adding (inside the adder): the add fails
+\* after the response has started (streaming) or is answered 500 (stream-channels=false)
+AddOptDeferred(n) == IF n = "chunker" THEN {"bogus"} ELSE {}
+AddOptClasses(n) == AddOptValid(n) \cup AddOptRefused(n) \cup AddOptDeferred(n)
+
+\* scripted cluster answers.  ok / err / notfound for the single-RPC routes; for POST /add the point of the
+\* add pipeline at which the cluster fails: err_alloc (BlockAllocate), err_put (BlockPut), err_pin (final Pin)
+AddAnswers == {"ok", "err_alloc", "err_put", "err_pin"}
 
 (***************************************************************************)
 (* Requests.  req =                                                        *)
@@ -207,6 +214,9 @@ PosLenient(req, r) ==
     \/ "local" \in r.args /\ req.local \in LocalLenient
     \/ "filter" \in r.args /\ req.filter \in FilterLenient
 
+\* an add parameter the adder rejects while adding
+Deferred(req, r) == "addopts" \in r.args /\ \E n \in AddOptNames : req.a[n] \in AddOptDeferred(n)
+
 \* malformed in a component the route carries: the statement demands a refusal
 RelevantInvalid(req, r) ==
     \/ PosInvalid(req, r)
@@ -215,6 +225,7 @@ RelevantInvalid(req, r) ==
 
 \* nothing malformed anywhere in the request
 AllValid(req, r) ==
+    /\ ~Deferred(req, r)
     /\ ~PosInvalid(req, r)
     /\ ~PosLenient(req, r)
     /\ \A n \in OptNames : req.o[n] \in OptValid(n)
@@ -278,11 +289,20 @@ ArgOf(r, req) ==
       [] r.arg = "str"      -> [k |-> "str", s |-> req.mname]
       [] OTHER              -> [k |-> "none"]
 
+\* how far the add pipeline gets for a scripted answer
+AddReach(ans) == CASE ans = "err_alloc" -> 1 [] ans = "err_put" -> 2 [] OTHER -> 3
+AddFailed(req, r) == Deferred(req, r) \/ req.ans # "ok"
+Streaming(req) == req.a["stream"] # "false"
+\* "root": the pinned CID is the one the caller was told.  A failed add tells no root CID, except that a streaming
+\* add has already sent the file's entry when only the final pin fails.
+AddRoot(req) == IF req.ans = "ok" \/ (req.ans = "err_pin" /\ Streaming(req)) THEN "root" ELSE "notold"
+
 OpsOf(r, req) ==
     IF r.name = "Add" THEN
-        <<[svc |-> "Cluster", m |-> "BlockAllocate", arg |-> AddArg(req, "undef")],
-          [svc |-> "IPFSConnector", m |-> "BlockPut", arg |-> [k |-> "block"]],
-          [svc |-> "Cluster", m |-> "Pin", arg |-> AddArg(req, "root")]>>
+        IF Deferred(req, r) THEN <<>> ELSE
+        SubSeq(<<[svc |-> "Cluster", m |-> "BlockAllocate", arg |-> AddArg(req, "undef")],
+                 [svc |-> "IPFSConnector", m |-> "BlockPut", arg |-> [k |-> "block"]],
+                 [svc |-> "Cluster", m |-> "Pin", arg |-> AddArg(req, AddRoot(req))]>>, 1, AddReach(req.ans))
     ELSE
         <<[svc |-> r.svc, m |-> (IF "local" \in r.args /\ req.local = "true" THEN r.mloc ELSE r.m),
            arg |-> ArgOf(r, req)]>>
@@ -311,6 +331,13 @@ Expected(req) ==
     ELSE LET r == RouteOf(req) IN
         IF CodeRefuses(req, r) THEN
             [st |-> {400}, ops |-> <<>>, docs |-> 1]
+        ELSE IF r.name = "Add" THEN
+            \* AddMultipartHTTPHandler: streaming (default) has already answered 200 when the add fails and
+            \* reports the error in the X-Stream-Error trailer; stream-channels=false buffers and answers 500 + error
+            LET streaming == Streaming(req)
+                failed == AddFailed(req, r) IN
+            [st |-> {IF ~streaming /\ failed THEN 500 ELSE 200}, ops |-> OpsOf(r, req),
+             docs |-> IF streaming /\ failed /\ ~(req.ans = "err_pin" /\ ~Deferred(req, r)) THEN 0 ELSE 1]
         ELSE LET s == StatusFor(r, req.ans) IN
             [st |-> {s}, ops |-> OpsOf(r, req), docs |-> BodyDocs(req, s)]
 
@@ -352,7 +379,9 @@ FailClosed(req, obs) ==
 Faithful(req, obs) ==
     Authorized(req) /\ Match(req) # {} /\ ~RelevantInvalid(req, RouteOf(req)) =>
         LET r == RouteOf(req) IN
-        IF AllValid(req, r) THEN Translated(req, r, obs)
+        \* rejected while adding: nothing is performed, and a buffered (stream-channels=false) answer does not claim success
+        IF Deferred(req, r) THEN obs.ops = <<>> /\ (~Streaming(req) => ~Is2xx(obs.status))
+        ELSE IF AllValid(req, r) THEN Translated(req, r, obs)
         ELSE Refused(obs) \/ Translated(req, r, obs)   \* malformed only in a parameter the route does not carry
 
 Good(req, obs) ==
@@ -385,15 +414,27 @@ Deviates(req) ==
 (* obs = [ops, reterr, ret, ans] : ret / ans are projections of the value   *)
 (* returned by the client and of the value the recorder answered.          *)
 (***************************************************************************)
+\* client-side refusals: nothing can be sent
+ClientSideRefusal(req) == Match(req) # {} /\ "path" \in RouteOf(req).args /\ req.path \in PathInvalid
+
 ClientExpectedOps(req) ==
-    IF ~Authorized(req) THEN <<>>
-    ELSE IF "path" \in RouteOf(req).args /\ req.path \in PathInvalid THEN <<>>   \* nothing can be sent
-    ELSE OpsOf(RouteOf(req), req)
+    IF ~Authorized(req) \/ ClientSideRefusal(req) THEN <<>>
+    ELSE Expected(req).ops              \* <<>> when the server refuses (400) what the client let through
+
+\* the status the server answers for the call, as the client must report it (api.Error.Code); 0: no answer at all
+ClientErrCodes(req) ==
+    IF ClientSideRefusal(req) THEN {0}
+    ELSE IF Authorized(req) /\ RouteOf(req).name = "Add" /\ 200 \in Expected(req).st THEN {500}  \* stream error trailer
+    ELSE Expected(req).st
+
+ClientMustFail(req) ==
+    \/ ~Authorized(req) \/ ClientSideRefusal(req)
+    \/ LET r == RouteOf(req) IN CodeRefuses(req, r) \/ Deferred(req, r) \/ req.ans # "ok"
 
 ClientFaithful(req, obs) ==
     /\ obs.ops = ClientExpectedOps(req)
-    /\ IF ClientExpectedOps(req) = <<>> THEN obs.reterr         \* refused: the caller must learn it
-       ELSE /\ obs.reterr = (req.ans # "ok")
-            /\ (req.ans = "ok" => obs.ret = obs.answered)
+    /\ obs.reterr = ClientMustFail(req)                \* error / non-error as the server answered
+    /\ IF ClientMustFail(req) THEN obs.errcode \in ClientErrCodes(req)
+       ELSE obs.ret = obs.answered                      \* the value the server answered
 
 =============================================================================
